@@ -88,6 +88,7 @@ def plan(tier, seed):
         shards += [("corrupt", -k) for k in range(2, 6)] + [("zero", -k, j) for k in range(2, 6) for j in range(k)]
     shards += [("long", n) for n in LONG]
     shards.append(("rates",))
+    shards += [("optimised", ("-O",)), ("optimised", ("-OO",))]
     shards += [("corrupt", 100 + k) for k in range(2, 7)] + [("zero", 100 + k, j) for k in range(2, 7) for j in range(k)]
     shards += [("corrupt", 200 + k) for k in range(1, 5)] + [("zero", 200 + k, j) for k in (2, 4) for j in range(k)]
     shards += [("corrupt", 300 + k) for k in range(1, 4)] + [("zero", 303, j) for j in range(3)]
@@ -153,6 +154,12 @@ def expect(ctx, text, what, corrupted=True):
 
 
 def run_shard(shard, ctx):
+    if shard[0] == "optimised":
+        from .. import core
+        import sys
+
+        core.run_in_other_interpreter(ctx, sys.modules[__name__], [("queries",), ("corrupt", 2), ("zero", 2, 1), ("zero", 3, 2), ("rates",)], shard[1], "query sweeps, every corruption of the 2-event maps, zero tempi, rate queries")
+        return
     kind = shard[0]
     if kind == "corrupt":
         b, RES = base_of(shard[1])
